@@ -445,6 +445,15 @@ def batch_cases(draw):
         if draw(st.integers(0, 4)) == 0:
             r["subj"] = {"kind": "regex", "names": [draw(st.sampled_from([r"q\.a", r".*\.x$", r"q\.[abc]$", r"q\.a.*|q\.b$"]))]}
         imports = draw(RS.import_relation(tree, focus=set(S) | set(O), max_edges=12))
+        nested = [(x, y) for x in tree for y in tree if M.is_strict_desc(y, x) and x != "q" and any(M.is_strict_desc(z, y) for z in tree)]
+        if nested and not anything and draw(st.integers(0, 2)) == 0:
+            # objects given as 'sub modules of' a package and of a package nested in it, listed in a drawn order; some subject
+            # imports the nested package itself
+            x, y = draw(st.sampled_from(nested))
+            r["obj"] = {"kind": "sub", "names": list(draw(st.permutations([x, y]))), "as_str": False}
+            outside = [m for m in tree if not M.related(m, x)] or [tree[0]]
+            r["subj"] = {"kind": "named", "names": [draw(st.sampled_from(outside))], "as_str": False}
+            imports = sorted(set(imports) | {(r["subj"]["names"][0], y)}) if not M.related(r["subj"]["names"][0], y) else imports
         return {"type": "rule", "tree": tree, "imports": [list(x) for x in imports], "rule": r}
     if t == "layer":
         return dict(draw(c05.cases()), type="layer")
